@@ -174,7 +174,7 @@ type Shape struct {
 	Gates   int
 	Outs    []int // output widths per declared output
 	Ops     []circuit.Operation
-	Kind    int // 0 random dag, 1 chain, 2 wide layers, 3 heavy fan-out
+	Kind    int // 0 random dag, 1 chain, 2 wide layers, 3 heavy fan-out, 4 hot input wires (every input wire feeds gates all over the circuit)
 	SameP   int // percent of binary gates using the same wire twice
 	Named   bool
 	UintOut bool
@@ -239,6 +239,10 @@ func Gen(r *vrt.Rng, s Shape) *circuit.Circuit {
 			case 3: // fan-out: half of all inputs come from a hub wire
 				if r.Bool() {
 					return circuit.Wire(hub)
+				}
+			case 4: // hot inputs: half of all gate inputs are circuit input wires
+				if r.Bool() {
+					return circuit.Wire(r.Intn(nin))
 				}
 			}
 			return circuit.Wire(r.Intn(next))
